@@ -231,6 +231,9 @@ class PX:
         self.fork_loop_bound = fork_loop_bound
         self.budget_s = budget_s  # wall-clock budget of one exploration: exceeded -> AnalysisError, never a verdict
         self.pure = tuple(pure)  # callee text patterns that are side-effect free & uninteresting (no event)
+        # asyncio.timeout as it really works (opt-in per rule): when the limit expires the awaiting code sees CancelledError *inside*
+        # the block, and TimeoutError is raised only where the block is left
+        self.precise_timeouts = False
         import threading
 
         self._tls = threading.local()
@@ -1038,8 +1041,13 @@ class PX:
         if is_timeout:
             self.timeouts.append(text)
         self.ctxstack = self.ctxstack + [text]
+        depth_ = len(self.timeouts)
         try:
             run_body()
+        except Exc as ex_:
+            if is_timeout and ex_.cls_name == "CancelledError" and str(ex_.origin) == f"deadline:{depth_}":
+                raise Exc("TimeoutError", (), origin=f"asyncio.timeout expired ({text})")  # the block is left: the cancellation becomes TimeoutError
+            raise
         finally:
             if is_timeout:
                 self.timeouts.pop()
@@ -2518,6 +2526,11 @@ class PX:
         return self._take(model, text, args, kw, fr, node, kind)
 
     def _take(self, outcomes, text, args, kw, fr, node, kind):
+        if kind == "await" and self.precise_timeouts and self.timeouts and self.choose(2, f"deadline of {self.timeouts[-1]} at {text}"):
+            self.epoch += 1
+            self.emit(kind, text, args, kw, node=node, frame=fr, extra="raises TimeoutError", callee=getattr(self, "_callee", None))
+            ex_ = Exc("CancelledError", (), origin=f"deadline:{len(self.timeouts)}")
+            raise ex_
         outs = outcomes.outs
         i = self.choose(len(outs), f"outcome {text}")
         o = outs[i]
